@@ -16,6 +16,7 @@ import SvgVerif.Model.Smoothing
 import SvgVerif.Model.Flatten
 import SvgVerif.Model.TransformParse
 import SvgVerif.Spec.Shapes
+import SvgVerif.Model.Doc
 /-! Correspondence driver: one operation per input line, one canonical result per
 output line.  Run as `lake env lean --run Driver.lean < ops.txt`.  The Python
 harness feeds the same operations to the real svgpathtools code and diffs. -/
@@ -489,6 +490,62 @@ def runFromGroup (ws : List String) : String :=
     | _, _ => "bad-args"
   | _ => "bad-args"
 
+/-! C18 -/
+open SvgVerif.Model.Doc in
+/-- prefix encoding: `D name nP pid^nP nK child^nK` -/
+def parseDGrp : Nat → List String → Option (DGrp × List String)
+  | 0, _ => none
+  | fuel + 1, "D" :: name :: ws => do
+    let nP ← ws.head? >>= String.toNat?
+    let ps ← ((ws.drop 1).take nP).mapM String.toNat?
+    if ps.length ≠ nP then none
+    let mut ws := ws.drop (1 + nP)
+    let nK ← ws.head? >>= String.toNat?
+    ws := ws.drop 1
+    let mut kids : List DGrp := []
+    for _ in List.range nK do
+      let (k, rest) ← parseDGrp fuel ws
+      kids := kids ++ [k]
+      ws := rest
+    pure (.mk name ps kids, ws)
+  | _, _ => none
+
+open SvgVerif.Model.Doc in
+def parseDocOp : List String → Option Op
+  | "P" :: pid :: names => pid.toNat?.map (fun p => Op.addPath names p)
+  | "G" :: names => some (Op.addGroup names)
+  | _ => none
+
+/-- split a word list at the separator `;` -/
+def splitSemi (ws : List String) : List (List String) :=
+  let rec go (acc : List String) (rest : List String) (out : List (List String)) : List (List String) :=
+    match rest with
+    | [] => (acc.reverse :: out).reverse
+    | ";" :: r => go [] r (acc.reverse :: out)
+    | w :: r => go (w :: acc) r out
+  (go [] ws []).filter (fun l => !l.isEmpty)
+
+open SvgVerif.Model.Doc in
+def runDoc (ws : List String) : String :=
+  match splitBar ws with
+  | [tree, ops] =>
+    match parseDGrp 64 tree, (splitSemi ops).mapM parseDocOp with
+    | some (t, []), some ops =>
+      match docPaths (run t ops) with
+      | some ps => "ok " ++ " ".intercalate (ps.map toString) ++ " | all " ++ " ".intercalate ((allPaths (run t ops)).map toString)
+      | none => "fuel"
+    | _, _ => "bad-args"
+  | _ => "bad-args"
+
+/-- `wattrs d k1 v1 k2 v2 …`: the attributes `wsvg` writes for one path -/
+def runWAttrs (ws : List String) : String :=
+  match ws with
+  | d :: rest =>
+    match pairUp rest with
+    | some kvs => " ".intercalate ((SvgVerif.Model.Doc.wsvgAttrs d kvs).map (fun kv => kv.1 ++ "=" ++ kv.2))
+    | none => "bad-args"
+  | _ => "bad-args"
+
 def handle (cmd : String) (args : List String) : String :=
   match cmd with
   | "polyroots01" =>
@@ -642,6 +699,8 @@ def handle (cmd : String) (args : List String) : String :=
     | some [L, s] => showIl (InvArc.invLine L s)
     | _ => "bad-args"
   | "invpath" => runInvPath args
+  | "doc" => runDoc args
+  | "wattrs" => runWAttrs args
   | "ptf" => runPtf args
   | "shape" => runShape args
   | "flat" => runFlat args
